@@ -154,14 +154,18 @@ def case_T(j):
     rows = (n + W - 1) // W
 
     def mk(vals):
-        a = np.zeros(rows * W, dtype=np.float64)
-        a[:n] = [np.nan if v == "nan" else float(v) for v in vals]
-        if n < rows * W:
-            a[n:] = a[0]
         dt = j["dtype"]
-        if dt.startswith(("int", "uint")):
-            a = np.where(np.isnan(a), 0, a)
-        return xr.DataArray(a.astype(dt).reshape(rows, W), dims=["y", "x"],
+        if dt.startswith(("int", "uint")):          # exact: big integers never pass through a float
+            full = [0 if v == "nan" else int(v) for v in vals]
+            full += [full[0]] * (rows * W - n)
+            a = np.array(full, dtype=dt)
+        else:
+            a = np.zeros(rows * W, dtype=np.float64)
+            a[:n] = [np.nan if v == "nan" else float(v) for v in vals]
+            if n < rows * W:
+                a[n:] = a[0]
+            a = a.astype(dt)
+        return xr.DataArray(a.reshape(rows, W), dims=["y", "x"],
                             coords={"y": np.arange(rows)[::-1], "x": np.arange(W)})
     kw = {}
     if j.get("nodata") is not None:
@@ -170,7 +174,21 @@ def case_T(j):
     o = np.asarray(out.data)
     shape_ok = int(o.shape == (rows, W, 4))
     nd = 1 if j.get("nodata") is None else j["nodata"]
-    return {"kind": "T", "red": [NAN if v == "nan" else int(v) for v in j["red"]], "nd2": int(round(2 * nd)),
+    if j.get("rank"):
+        # order-isomorphic encoding (ties preserved): the red values AS STORED in the raster's own dtype and nodata
+        # are replaced by their exact rank (Python compares ints and floats exactly); TLC's rule 2*red <= nd2 then
+        # decides "red <= nodata" exactly, without any rounding
+        dt = j["dtype"]
+        stored = [None if v == "nan" else
+                  (np.array([int(v)], dtype=dt)[0].item() if dt.startswith(("int", "uint"))
+                   else np.array([float(v)], dtype=np.float64).astype(dt)[0].item()) for v in j["red"]]
+        table = sorted(set([v for v in stored if v is not None] + [nd]))
+        red_enc = [NAN if v is None else table.index(v) for v in stored]
+        nd2 = 2 * table.index(nd)
+    else:
+        red_enc = [NAN if v == "nan" else int(v) for v in j["red"]]
+        nd2 = int(round(2 * nd))
+    return {"kind": "T", "red": red_enc, "nd2": nd2,
             "alpha": [int(v) for v in o[:, :, 3].reshape(-1)[:n]] if shape_ok else [],
             "dtype_ok": int(o.dtype == np.uint8), "shape_ok": shape_ok,
             "dims_ok": int(tuple(out.dims) == ("y", "x", "band"))}
